@@ -105,6 +105,19 @@ def run(ctx):
                     a10 = True
     if not a10:
         ob4.refute("a10-or", "the auto-precharge flag is not OR-ed onto column bit 10 of cmd.a", None)
+    # the terms the bank machine REALLY drives on cmd.a (after inlining of local wires; a wire narrower than its value shows up as trunc(..)):
+    # they must be, bit for bit, the slicer's row / column of the queue head - checked per valuation below
+    bm_col = bm_row = None
+    for l in bm.drivers("cmd.a"):
+        if isinstance(l.value, Op) and l.value.op == "|" and any(isinstance(t, Op) and t.op == "<<" and isinstance(t.args[1], Const) and t.args[1].v == 10 for t in l.value.args):
+            rest = [t for t in l.value.args if not (isinstance(t, Op) and t.op == "<<" and isinstance(t.args[1], Const) and t.args[1].v == 10)]
+            bm_col = (rest[0], l) if len(rest) == 1 else None
+        elif bm_row is None:
+            bm_row = (l.value, l)
+    heads = sorted({str(x) for t_ in (bm_col, bm_row) if t_ for x in subterms(t_[0]) if isinstance(x, (Sym, Obj)) and str(x).endswith(".addr")})
+    if not ob1.need(bm_col is not None and bm_row is not None and len(heads) == 1, "bank machine: row / column arms of cmd.a not identified (%s)" % heads):
+        return
+    ob1.instance("bank machine cmd.a terms", {"row": key(bm_row[0])[:200], "column": key(bm_col[0])[:300], "source": heads[0]})
     # ---- controller: address_align ------------------------------------------------------------------------
     ctl = elab(ctx, "litedram.core.controller", "LiteDRAMController", overrides={"phy_settings.nranks": Const(1), "geom_settings.bankbits": Const(1)})
     bms = ctl.instances_of("BankMachine")
@@ -183,11 +196,26 @@ def run(ctx):
                 envs["init." + fname] = ieval(actual, {"settings.geom.colbits": colbits, "address_align": align})
             row = bitvec(row_t, envs, lambda n: bank_addr_w)
             col = bitvec(col_t, envs, lambda n: bank_addr_w)
+            benv = {"settings.geom.colbits": colbits, "settings.geom.rowbits": rowbits, "address_align": align}
+            brow = [("address", b[1]) if b[0] == heads[0] else b for b in bitvec(bm_row[0], benv, lambda n: bank_addr_w)]
+            bcol = [("address", b[1]) if b[0] == heads[0] else b for b in bitvec(bm_col[0], benv, lambda n: bank_addr_w)]
         except Unresolved as e:
             ob1.unknown("%s: not evaluable: %s" % (tag, e))
             return
         except (IndexError, ValueError) as e:
             ob1.refute("eval:" + tag, "%s: address arithmetic fails (%s)" % (tag, e), None)
+            continue
+
+        def strip(v):
+            v = list(v)
+            while v and v[-1] == ZERO:
+                v.pop()
+            return v
+        if strip(bcol) != strip(col) or strip(brow) != strip(row):
+            which = "column" if strip(bcol) != strip(col) else "row"
+            ob1.refute("bm-path:%s:%s" % (which, tag), "%s: the %s the bank machine drives on cmd.a is %s, but the slicer's %s of the queue head is %s: address bits are "
+                       "lost or moved between the slicer and the command bus (e.g. an intermediate wire that is too narrow)" %
+                       (tag, which, _fmt(bcol if which == "column" else brow), which, _fmt(col if which == "column" else row)), (bm_col if which == "column" else bm_row)[1].loc)
             continue
 
         def comp(v):
